@@ -1,15 +1,28 @@
 #!/bin/bash
-# tools/try_seed.sh <seeded/dir> [tier] [extra check args]: apply its patch.diff to /repo, run the check of the property
-# it breaks (and the demo), then undo the patch.  Never leaves /repo modified.
+# tools/try_seed.sh [--copy] <seeded/dir> [tier] [extra check args]
+# default: git -C /repo apply patch.diff; run the check of the property it breaks (and the demo); git -C /repo checkout -- .
+# --copy : leave /repo alone (e.g. while long runs are using it): the patch is applied to a scratch copy under /tmp and the
+#          check runs against that copy (VERIF_REPO); the copy is removed afterwards.
 set -u
 cd "$(dirname "$0")/.."
+mode=inplace
+if [ "$1" = "--copy" ]; then mode=copy; shift; fi
 d=$1; tier=${2:-quick}; shift; shift || true
 prop=$(python3 -c "import json,sys; print(json.load(open('$d/meta.json'))['property'])")
-if ! git -C /repo diff --quiet; then echo "/repo has uncommitted changes; refusing" >&2; exit 2; fi
-git -C /repo apply "$PWD/$d/patch.diff" || { echo "patch does not apply" >&2; exit 2; }
-trap 'git -C /repo checkout -- . ' EXIT
-echo "== tests with the change:"; (cd /repo && /venv/bin/python -m pytest -q -p no:cacheprovider 2>&1 | tail -1)
-if [ -f "$d/demo.py" ]; then echo "== demo with the change:"; (cd /repo && PYTHONPATH=/repo timeout 300 /venv/bin/python "$OLDPWD/$d/demo.py" 2>&1 | tail -2); fi
-echo "== ./check $prop --tier $tier $*"
+if [ $mode = inplace ]; then
+  if ! git -C /repo diff --quiet; then echo "/repo has uncommitted changes; refusing" >&2; exit 2; fi
+  git -C /repo apply "$PWD/$d/patch.diff" || { echo "patch does not apply" >&2; exit 2; }
+  trap 'git -C /repo checkout -- . ' EXIT
+  R=/repo
+else
+  R=$(mktemp -d /tmp/seedrepo_XXXXXX)
+  rsync -a --exclude .git /repo/ $R/
+  (cd $R && patch -s -p1 < "$OLDPWD/$d/patch.diff") || { echo "patch does not apply" >&2; rm -rf $R; exit 2; }
+  trap 'rm -rf $R' EXIT
+  export VERIF_REPO=$R
+fi
+echo "== tests with the change:"; (cd $R && PYTHONPATH=$R /venv/bin/python -m pytest -q -p no:cacheprovider 2>&1 | tail -1)
+if [ -f "$d/demo.py" ]; then echo "== demo with the change:"; (cd $R && PYTHONPATH=$R timeout 300 /venv/bin/python "$OLDPWD/$d/demo.py" 2>&1 | tail -2); fi
+echo "== ./check $prop --tier $tier $* (tree under check: $R)"
 ./check $prop --tier $tier "$@" 2>&1 | grep -v "confirmed  " | tail -8
 echo "exit=${PIPESTATUS[0]}"
